@@ -690,6 +690,7 @@ func (rn *Runner) runSolo(mod string, r *Result, sub string) {
 }
 
 var reHdr = regexp.MustCompile(`(?m)^# (\S+)`)
+var reLoadErr = regexp.MustCompile(`(?m)^([^\s/:]+)/[^\s:]*\.go:\d+:\d+: .*$`)
 
 func (rn *Runner) compileAndRun(mod string, results []*Result) {
 	var want []*Result
@@ -744,6 +745,19 @@ func (rn *Runner) compileAndRun(mod string, results []*Result) {
 			dir, _, ok := caseOfPath(path)
 			if ok {
 				failed[dir] += strings.ReplaceAll(out[m[0]:end], mod+"/", "")
+			}
+		}
+		if len(failed) == 0 {
+			// errors found while loading (an import that names no package) carry no "# pkg" header:
+			// "c0003/wire_gen.go:9:2: package x is not in std"
+			dirs := map[string]bool{}
+			for _, r := range want {
+				dirs[r.Case.Dir] = true
+			}
+			for _, m := range reLoadErr.FindAllStringSubmatch(out, -1) {
+				if dirs[m[1]] {
+					failed[m[1]] += m[0] + "\n"
+				}
 			}
 		}
 		if len(failed) == 0 {
